@@ -156,6 +156,8 @@ theorem multi_out_correct (st : List FState) (ch : List Nat) (ops : List Multi.O
   rw [hch] at this
   exact this
 
+example : (Multi.run (Multi.init [none] [0, 0]) [.set 0 (.result 3), .tick]).out = some (.vals [3, 3]) := by decide
+
 /-- the loop always drains: whatever is queued, after two iterations nothing is ready (a callback schedules
     nothing, a `call_soon`ed settle only schedules callbacks) … -/
 theorem multi_drains (s : Multi.S) : (Multi.run s [.tick, .tick]).ready = [] := Multi.tick_tick_idle s
